@@ -29,7 +29,10 @@ Fixpoint quiet (m : mach) : Prop :=
   | MSubx up inner keep saved slot => quiet up /\ quiet inner /\ saved = None /\ slot = None
   | MIfElse up cnd thn els active => quiet up /\ quiet cnd /\ quiet thn /\ quiet els /\ active = None
   | MWord up w pending => quiet up /\ pending = []
-  | MFormat _ _ _ _ | MClosure _ _ _ _ _ _ _ | MApply _ _ _ => False
+  | MClosure up inner plus slot seen stks drained =>
+    quiet up /\ quiet inner /\ slot = None /\ seen = [] /\ stks = [] /\ drained = true
+  | MApply up skip sub => quiet up /\ sub = None
+  | MFormat _ _ _ _ => False
   end.
 
 Definition all_quiet (l : list mach) : Prop := Forall quiet l.
@@ -81,7 +84,9 @@ Fixpoint inv (m : mach) : Prop :=
   | MIfElse up cnd thn els active =>
     inv up /\ quiet cnd /\ quiet thn /\ quiet els /\ match active with None => True | Some (am, _) => inv am end
   | MWord up w pending => inv up
-  | MFormat _ _ _ _ | MClosure _ _ _ _ _ _ _ | MApply _ _ _ => False
+  | MClosure up inner _ slot _ _ drained => inv up /\ inv inner /\ (drained = true -> quiet inner /\ slot = None)
+  | MApply up _ sub => inv up /\ match sub with None => True | Some (bm, _, _, _) => inv bm end
+  | MFormat _ _ _ _ => False
   end.
 
 (* list views of the nested fixpoints *)
@@ -150,6 +155,8 @@ Fixpoint msize (m : mach) : nat :=
   | MOr up brs _ => S (msize up + (fix sum (l : list (mach * option stack)) : nat := match l with [] => 0 | (x, _) :: t => msize x + sum t end) brs)
   | MCapture up inner => S (msize up + msize inner)
   | MSubx up inner _ _ _ => S (msize up + msize inner)
+  | MClosure up inner _ _ _ _ _ => S (msize up + msize inner)
+  | MApply up _ _ => S (msize up)
   | MIfElse up cnd thn els _ => S (msize up + msize cnd + msize thn + msize els)
   | _ => 1
   end.
@@ -174,9 +181,11 @@ Proof.
     destruct (Nat.eqb j 0); [|exact Q]. apply IH; [|exact Q]. pose proof (msize_in_merge br brs Hj). lia.
   - (* MOr *) intros H. apply quiet_or in H. destruct H as [Hu [Hb ->]]. cbn [msize] in Hs. apply inv_or_none. split; [apply IH; [lia|exact Hu]|exact Hb].
   - (* MCapture *) cbn [quiet inv msize] in *. intros [H1 H2]. split; [apply IH; [lia|exact H1]|exact H2].
+  - (* MClosure *) cbn [quiet inv msize] in *. intros [H1 [H2 [-> [-> [-> ->]]]]]. split; [apply IH; [lia|exact H1]|]. split; [apply IH; [lia|exact H2]|]. intros _. auto.
   - (* MSubx *) cbn [quiet inv msize] in *. intros [H1 [H2 [-> ->]]]. split; [apply IH; [lia|exact H1]|]. split; [apply IH; [lia|exact H2]|]. intros _. auto.
   - (* MIfElse *) cbn [quiet inv msize] in *. intros [H1 [H2 [H3 [H4 ->]]]]. split; [apply IH; [lia|exact H1]|]. repeat split; auto.
   - (* MWord *) cbn [quiet inv msize] in *. intros [H1 _]. apply IH; [lia|exact H1].
+  - (* MApply *) cbn [quiet inv msize] in *. intros [H1 ->]. split; [apply IH; [lia|exact H1]|exact I].
 Qed.
 
 Lemma quiet_inv m : quiet m -> inv m.
@@ -244,6 +253,9 @@ Lemma next_leaf_tine f env i file done up uc s :
     end
   else Ret (nth i file None, MLeaf, LTine i (set_nth i None file) done up uc, s, []).
 Proof. reflexivity. Qed.
+
+(* the bodies of the program's blocks are stored as constructed *)
+Hypothesis blks_quiet : Forall quiet blks.
 
 Definition Main (f : nat) : Prop :=
   forall env m c s r m' c' s' e, inv m -> cinv c -> nodone c ->
@@ -589,6 +601,82 @@ Proof.
       destruct (Nat.eqb j (if Nat.eqb (S idx) (length brs) then 0 else S idx)); [apply quiet_inv; exact Qb|exact Qb].
 Qed.
 
+Lemma case_closure f : Main f -> forall env up inner plus slot seen stks drained c s r m' c' s' e,
+  inv (MClosure up inner plus slot seen stks drained) -> cinv c -> nodone c ->
+  next (S f) env (MClosure up inner plus slot seen stks drained) c s = Ret (r, m', c', s', e) -> Concl c r m' c'.
+Proof.
+  intros IHf env up inner plus slot seen stks drained c s r m' c' s' e [Hup [Hin Hdr]] Hc Hn H. cbn [next] in H.
+  destruct drained; cbn [negb] in H; cbn iota in H.
+  - destruct (Hdr eq_refl) as [Qin ->].
+    destruct stks as [|stk rest].
+    + pull H Eu. destruct (IHf _ _ _ _ _ _ _ _ _ Hup Hc Hn Eu) as [I1 [I2 [I3 [I4 I5]]]].
+      destruct ru as [stk|].
+      * cbn [isnone] in I4. destruct plus.
+        -- apply add_errs_ret in H. destruct H as [e1 H]. eapply chain_concl; [exact I3|].
+           eapply (IHf _ (MClosure up' inner true (Some stk) [] [] false) cu); eauto.
+           ++ cbn [inv]. repeat split; auto; try (apply quiet_inv; exact Qin); try congruence.
+           ++ apply cpost_false_nodone. exact I4.
+        -- inversion H; subst. concl; auto; try congruence; cbn [inv]; repeat split; auto; try (apply quiet_inv; exact Qin); try congruence.
+      * inversion H; subst. assert (quiet up') as Q by (apply I5; reflexivity). concl; auto.
+        -- cbn [inv]. repeat split; auto; try (apply quiet_inv; exact Qin).
+        -- intros _. cbn [quiet]. repeat split; auto.
+    + eapply (IHf _ (MClosure up inner plus (Some stk) seen rest false) c); eauto.
+      cbn [inv]. repeat split; auto; try (apply quiet_inv; exact Qin); try congruence.
+  - destruct (next f env inner (LOrigin slot) s) as [| | |[[[[ri inner'] ci] si] ei]] eqn:Ei; try discriminate.
+    destruct (sub_pull f IHf _ _ _ _ _ _ _ _ _ Hin Ei) as [J1 [[sl' [-> J2]] J3]].
+    destruct ri as [rs|].
+    + destruct (seen_mem rs seen).
+      * apply add_errs_ret in H. destruct H as [e1 H].
+        eapply (IHf _ (MClosure up inner' plus sl' seen stks false) c); eauto.
+        cbn [inv]. repeat split; auto; congruence.
+      * inversion H; subst. concl.
+        -- cbn [inv]. repeat split; auto; congruence.
+        -- exact Hc.
+        -- apply shape_refl.
+        -- apply nodone_cpost_false. exact Hn.
+        -- congruence.
+    + apply add_errs_ret in H. destruct H as [e1 H].
+      eapply (IHf _ (MClosure up inner' plus sl' seen stks true) c); eauto.
+      cbn [inv]. repeat split; auto.
+Qed.
+
+Lemma case_apply f : Main f -> forall env up skip sub c s r m' c' s' e,
+  inv (MApply up skip sub) -> cinv c -> nodone c ->
+  next (S f) env (MApply up skip sub) c s = Ret (r, m', c', s', e) -> Concl c r m' c'.
+Proof.
+  intros IHf env up skip sub c s r m' c' s' e [Hup Hsub] Hc Hn H. cbn [next] in H.
+  destruct sub as [[[[bm bsl] bs] benv]|].
+  - destruct (next f benv bm (LOrigin bsl) bs) as [| | |[[[[rb bm'] cb] sb] eb]] eqn:Eb; try discriminate.
+    destruct (sub_pull f IHf _ _ _ _ _ _ _ _ _ Hsub Eb) as [J1 [[sl' [-> J2]] J3]].
+    destruct rb as [rs|].
+    + inversion H; subst. concl.
+      * cbn [inv]. split; auto.
+      * exact Hc.
+      * apply shape_refl.
+      * apply nodone_cpost_false. exact Hn.
+      * congruence.
+    + apply add_errs_ret in H. destruct H as [e1 H].
+      eapply (IHf _ (MApply up skip None) c); eauto. cbn [inv]. split; auto.
+  - pull H Eu. destruct (IHf _ _ _ _ _ _ _ _ _ Hup Hc Hn Eu) as [I1 [I2 [I3 [I4 I5]]]].
+    destruct ru as [stk|].
+    + cbn [isnone] in I4. destruct stk as [|v rest]; [discriminate|].
+      assert (forall X, add_errs (eu ++ [SErr]) (next f env (MApply up' skip None) cu su) = Ret X ->
+                        Concl c (fst (fst (fst (fst X)))) (snd (fst (fst (fst X)))) (snd (fst (fst X)))) as SKIP.
+      { intros [[[[r0 m0] c0] s0] e0] HX. apply add_errs_ret in HX. destruct HX as [e1 HX]. cbn [fst snd].
+        eapply chain_concl; [exact I3|]. eapply (IHf _ (MApply up' skip None) cu); eauto; try (apply cpost_false_nodone; exact I4); cbn [inv]; split; auto. }
+      assert (Concl c (Some (v :: rest)) (MApply up' skip None) cu) as PASS.
+      { concl; auto; try congruence; cbn [inv]; split; auto. }
+      destruct v as [z d p|b p|l p|blk cenv p]; try (destruct skip; [inversion H; subst; exact PASS|exact (SKIP _ H)]).
+      destruct (nth_error blks (N.to_nat blk)) as [body|] eqn:Nb; [|discriminate].
+      apply add_errs_ret in H. destruct H as [e1 H].
+      eapply chain_concl; [exact I3|]. eapply (IHf _ (MApply up' skip (Some (body, Some rest, [], cenv))) cu); eauto.
+      * cbn [inv]. split; [exact I1|]. apply quiet_inv. rewrite Forall_forall in blks_quiet. apply blks_quiet. eapply nth_error_In; eauto.
+      * apply cpost_false_nodone. exact I4.
+    + inversion H; subst. assert (quiet up') as Q by (apply I5; reflexivity). concl; auto.
+      * cbn [inv]. split; auto.
+      * intros _. cbn [quiet]. split; auto.
+Qed.
+
 Theorem main : forall f, Main f.
 Proof.
   induction f as [|f IHf]; intros env m c s r m' c' s' e Hm Hc Hn H; [discriminate|].
@@ -600,6 +688,7 @@ Proof.
   - exact (case_merge f IHf env m brs file idx done c s r m' c' s' e Hm Hc Hn H).
   - exact (case_or f IHf env m brs cur c s r m' c' s' e Hm Hc Hn H).
   - destruct Hm as [H1 H2]. exact (case_capture f IHf env m1 m2 c s r m' c' s' e H1 H2 Hc Hn H).
+  - exact (case_closure f IHf env m1 m2 plus slot seen stks drained c s r m' c' s' e Hm Hc Hn H).
   - exact (case_subx f IHf env m1 m2 keep saved slot c s r m' c' s' e Hm Hc Hn H).
   - rewrite next_bind in H. refine (case_unary f (fun u => MBind u id) _ IHf _ _ env m c s r m' c' s' e Hm Hc Hn H); intros; cbn [inv quiet]; reflexivity.
   - rewrite next_read in H. refine (case_unary f (fun u => MRead u id) _ IHf _ _ env m c s r m' c' s' e Hm Hc Hn H); intros; cbn [inv quiet]; reflexivity.
@@ -607,6 +696,7 @@ Proof.
   - rewrite next_lexclosure in H. refine (case_unary f (fun u => MLexClosure u blk n) _ IHf _ _ env m c s r m' c' s' e Hm Hc Hn H); intros; cbn [inv quiet]; reflexivity.
   - exact (case_ifelse f IHf env m1 m2 m3 m4 active c s r m' c' s' e Hm Hc Hn H).
   - exact (case_word f IHf env m w pending c s r m' c' s' e Hm Hc Hn H).
+  - exact (case_apply f IHf env m skip sub c s r m' c' s' e Hm Hc Hn H).
   - rewrite next_debug in H. refine (case_unary f MDebug _ IHf _ _ env m c s r m' c' s' e Hm Hc Hn H); intros; cbn [inv quiet]; reflexivity.
 Qed.
 
@@ -628,6 +718,8 @@ Fixpoint reset (m : mach) : mach :=
   | MSubx up inner keep _ _ => MSubx (reset up) (reset inner) keep None None
   | MIfElse up cnd thn els _ => MIfElse (reset up) cnd thn els None
   | MWord up w _ => MWord (reset up) w []
+  | MClosure up inner plus _ _ _ _ => MClosure (reset up) (reset inner) plus None [] [] true
+  | MApply up skip _ => MApply (reset up) skip None
   | other => other
   end.
 
@@ -655,9 +747,11 @@ Proof.
       pose proof (msize_in_or x None brs Hx). lia. }
     clear - E. induction brs as [|x t IHt]; [reflexivity|]. cbn [map]. f_equal; [apply E; left; reflexivity|apply IHt; intros y Hy; apply E; right; exact Hy].
   - (* MCapture *) cbn [quiet reset msize] in *. intros [H1 H2]. f_equal. apply IH; [lia|exact H1].
+  - (* MClosure *) cbn [quiet reset msize] in *. intros [H1 [H2 [-> [-> [-> ->]]]]]. f_equal; apply IH; try lia; assumption.
   - (* MSubx *) cbn [quiet reset msize] in *. intros [H1 [H2 [-> ->]]]. f_equal; apply IH; try lia; assumption.
   - (* MIfElse *) cbn [quiet reset msize] in *. intros [H1 [H2 [H3 [H4 ->]]]]. f_equal. apply IH; [lia|exact H1].
   - (* MWord *) cbn [quiet reset msize] in *. intros [H1 ->]. f_equal. apply IH; [lia|exact H1].
+  - (* MApply *) cbn [quiet reset msize] in *. intros [H1 ->]. f_equal. apply IH; [lia|exact H1].
 Qed.
 
 Lemma quiet_reset m : quiet m -> reset m = m.
@@ -821,6 +915,32 @@ Proof.
     + destruct (drain (next f) f env m2 (LOrigin (Some stk)) su [] eu) as [| | |[[vs s2] e2]]; try discriminate.
       inversion H; subst. cbn [reset]. rewrite R1. split; [reflexivity|exact R2].
     + inversion H; subst. cbn [reset]. rewrite R1. split; [reflexivity|exact R2].
+  - (* closure *)
+    destruct Hm as [Hup [Hin Hdr]]. cbn [next] in H. destruct drained; cbn [negb] in H; cbn iota in H.
+    + destruct (Hdr eq_refl) as [Qin ->]. destruct stks as [|stk rest].
+      * pull2 H Eu IHr Hup Hc Hn. destruct ru as [stk|].
+        -- cbn [isnone] in I4. destruct plus.
+           ++ apply add_errs_ret in H. destruct H as [e1 H].
+              assert (inv (MClosure up' m2 true (Some stk) [] [] false)) as Inew by (cbn [inv]; repeat split; auto; try (apply quiet_inv; exact Qin); try congruence).
+              destruct (IHr _ _ cu _ _ _ _ _ _ Inew I2 (cpost_false_nodone _ I4) H) as [Q1 Q2].
+              split; [rewrite Q1; cbn [reset]; rewrite R1; reflexivity|eapply csame_trans; eauto].
+           ++ inversion H; subst. cbn [reset]. rewrite R1. split; [reflexivity|exact R2].
+        -- inversion H; subst. cbn [reset]. rewrite R1. split; [reflexivity|exact R2].
+      * assert (inv (MClosure m1 m2 plus (Some stk) seen rest false)) as Inew by (cbn [inv]; repeat split; auto; try (apply quiet_inv; exact Qin); try congruence).
+        destruct (IHr _ _ c _ _ _ _ _ _ Inew Hc Hn H) as [Q1 Q2]. split; [rewrite Q1; reflexivity|exact Q2].
+    + destruct (next f env m2 (LOrigin slot) s) as [| | |[[[[ri inner'] ci] si] ei]] eqn:Ei; try discriminate.
+      destruct (sub_pull f (main f) _ _ _ _ _ _ _ _ _ Hin Ei) as [J1 [[sl' [-> J2]] J3]].
+      assert (cinv (LOrigin slot)) as C1 by exact I. assert (nodone (LOrigin slot)) as C2 by exact I.
+      destruct (IHr _ _ _ _ _ _ _ _ _ Hin C1 C2 Ei) as [R1 _].
+      destruct ri as [rs|].
+      * destruct (seen_mem rs seen).
+        -- apply add_errs_ret in H. destruct H as [e1 H].
+           assert (inv (MClosure m1 inner' plus sl' seen stks false)) as Inew by (cbn [inv]; repeat split; auto; congruence).
+           destruct (IHr _ _ c _ _ _ _ _ _ Inew Hc Hn H) as [Q1 Q2]. split; [rewrite Q1; cbn [reset]; rewrite R1; reflexivity|exact Q2].
+        -- inversion H; subst. cbn [reset]. rewrite R1. split; [reflexivity|apply csame_refl].
+      * apply add_errs_ret in H. destruct H as [e1 H].
+        assert (inv (MClosure m1 inner' plus sl' seen stks true)) as Inew by (cbn [inv]; repeat split; auto).
+        destruct (IHr _ _ c _ _ _ _ _ _ Inew Hc Hn H) as [Q1 Q2]. split; [rewrite Q1; cbn [reset]; rewrite R1; reflexivity|exact Q2].
   - (* subx *)
     destruct Hm as [Hup [Hin Hsv]]. cbn [next] in H. destruct saved as [sv|].
     + destruct (next f env m2 (LOrigin slot) s) as [| | |[[[[ri inner'] ci] si] ei]] eqn:Ei; try discriminate.
@@ -872,6 +992,32 @@ Proof.
         -- inversion H; subst. cbn [reset]. rewrite R1. split; [reflexivity|exact R2].
       * inversion H; subst. cbn [reset]. rewrite R1. split; [reflexivity|exact R2].
     + inversion H; subst. cbn [reset]. split; [reflexivity|apply csame_refl].
+  - (* apply *)
+    destruct Hm as [Hup Hsub]. cbn [next] in H. destruct sub as [[[[bm bsl] bs] benv]|].
+    + destruct (next f benv bm (LOrigin bsl) bs) as [| | |[[[[rb bm'] cb] sb] eb]] eqn:Eb; try discriminate.
+      destruct (sub_pull f (main f) _ _ _ _ _ _ _ _ _ Hsub Eb) as [J1 [[sl' [-> J2]] J3]].
+      destruct rb as [rs|].
+      * inversion H; subst. cbn [reset]. split; [reflexivity|apply csame_refl].
+      * apply add_errs_ret in H. destruct H as [e1 H].
+        assert (inv (MApply m skip None)) as Inew by (cbn [inv]; split; auto).
+        destruct (IHr _ _ c _ _ _ _ _ _ Inew Hc Hn H) as [Q1 Q2]. split; [rewrite Q1; reflexivity|exact Q2].
+    + pull2 H Eu IHr Hup Hc Hn. destruct ru as [stk|].
+      * cbn [isnone] in I4. destruct stk as [|v rest]; [discriminate|].
+        assert (forall X, add_errs (eu ++ [SErr]) (next f env (MApply up' skip None) cu su) = Ret X ->
+                          reset (snd (fst (fst (fst X)))) = reset (MApply m skip None) /\ csame c (snd (fst (fst X)))) as SKIP.
+        { intros [[[[r0 m0] c0] s0] e0] HX. apply add_errs_ret in HX. destruct HX as [e1 HX]. cbn [fst snd].
+          assert (inv (MApply up' skip None)) as Inew by (cbn [inv]; split; auto).
+          destruct (IHr _ _ cu _ _ _ _ _ _ Inew I2 (cpost_false_nodone _ I4) HX) as [Q1 Q2].
+          split; [rewrite Q1; cbn [reset]; rewrite R1; reflexivity|eapply csame_trans; eauto]. }
+        destruct v as [z d p|b p|l p|blk cenv p];
+          try (destruct skip; [inversion H; subst; cbn [reset]; rewrite R1; split; [reflexivity|exact R2]|exact (SKIP _ H)]).
+        destruct (nth_error blks (N.to_nat blk)) as [body|] eqn:Nb; [|discriminate].
+        apply add_errs_ret in H. destruct H as [e1 H].
+        assert (inv (MApply up' skip (Some (body, Some rest, [], cenv)))) as Inew.
+        { cbn [inv]. split; [exact I1|]. apply quiet_inv. rewrite Forall_forall in blks_quiet. apply blks_quiet. eapply nth_error_In; eauto. }
+        destruct (IHr _ _ cu _ _ _ _ _ _ Inew I2 (cpost_false_nodone _ I4) H) as [Q1 Q2].
+        split; [rewrite Q1; cbn [reset]; rewrite R1; reflexivity|eapply csame_trans; eauto].
+      * inversion H; subst. cbn [reset]. rewrite R1. split; [reflexivity|exact R2].
   - rewrite next_debug in H. refine (unary_reset f MDebug _ IHr _ _ env m c s r m' c' s' e Hm Hc Hn H); intros; cbn [inv reset]; [reflexivity|congruence].
 Qed.
 
